@@ -50,13 +50,18 @@ import (
 	"go/types"
 	"log"
 	"os"
+	"path/filepath"
 	"runtime"
 	"slices"
+	"sort"
 	"strings"
 	_ "unsafe"
 
 	"golang.org/x/tools/go/ssa"
+	"golang.org/x/tools/go/ssa/ssautil"
 )
+
+func ssautilAllFunctions(p *ssa.Program) map[*ssa.Function]bool { return ssautil.AllFunctions(p) }
 
 type continuation int
 
@@ -515,8 +520,24 @@ func callSSA(i *interpreter, caller *frame, callpos token.Pos, fn *ssa.Function,
 		}
 		if fn.Pkg != nil {
 			if why := forbiddenPkg(fn.Pkg.Pkg.Path()); why != "" {
-				i.path.forbidden = append(i.path.forbidden, name)
-				i.path.abort(abDone, "forbidden call: "+name)
+				// C10: the engine has no model for file, network or process
+				// primitives; reaching one is a counterexample.
+				p := i.path
+				p.forbidden = append(p.forbidden, name)
+				func() {
+					defer func() { recover() }()
+					r, mv := p.sess.CheckWith(nil, p.inputTerms())
+					if r == Sat {
+						c := p.mkCand("C10.forbidden", "", mv)
+						c.PanicMsg = "reached " + name + " (" + why + ")"
+						if caller != nil {
+							c.PanicMsg += " from " + caller.fn.String()
+						}
+						p.cands = append(p.cands, c)
+					}
+				}()
+				p.sites["C10.forbidden"]++
+				p.abort(abDone, "forbidden call: "+name)
 			}
 		}
 		if fn.Blocks == nil {
@@ -775,6 +796,91 @@ func PrepareLoaded(prog *ssa.Program, main *ssa.Package, repoPrefix string) *Loa
 	initReflect(tmp)
 	ld.reflectPackage, ld.errorMethods, ld.rtypeMethods = tmp.reflectPackage, tmp.errorMethods, tmp.rtypeMethods
 	return ld
+}
+
+// repoFunctions enumerates the functions, methods and closures of the code
+// under test.
+func (ld *Loaded) repoFunctions() map[*ssa.Function]bool {
+	out := map[*ssa.Function]bool{}
+	var add func(f *ssa.Function)
+	add = func(f *ssa.Function) {
+		if f == nil || out[f] {
+			return
+		}
+		out[f] = true
+		for _, a := range f.AnonFuncs {
+			add(a)
+		}
+	}
+	for _, pkg := range ld.Prog.AllPackages() {
+		if pkg.Pkg == nil || !ld.isRepo(pkg.Pkg.Path()) {
+			continue
+		}
+		for _, m := range pkg.Members {
+			switch x := m.(type) {
+			case *ssa.Function:
+				add(x)
+			case *ssa.Type:
+				for _, t := range []types.Type{x.Type(), types.NewPointer(x.Type())} {
+					ms := ld.Prog.MethodSets.MethodSet(t)
+					for k := 0; k < ms.Len(); k++ {
+						if fn := ld.Prog.MethodValue(ms.At(k)); fn != nil && fn.Pkg == pkg {
+							add(fn)
+						}
+					}
+				}
+			}
+		}
+	}
+	return out
+}
+
+// ForbiddenSites lists the call sites in the code under test (harness and
+// command-line driver excluded) whose static callee is a file, network or
+// process primitive without a model (C10's completeness guard).
+func (ld *Loaded) ForbiddenSites() []string {
+	var out []string
+	for fn := range ld.repoFunctions() {
+		if fn == nil || fn.Pkg == nil || fn.Pkg.Pkg == nil || !ld.isRepo(fn.Pkg.Pkg.Path()) {
+			continue
+		}
+		path := fn.Pkg.Pkg.Path()
+		if strings.Contains(path, "/cmd/") || strings.HasSuffix(path, "/zzsv") || strings.Contains(path, "_examples") {
+			continue
+		}
+		if pos := ld.Prog.Fset.Position(fn.Pos()); strings.Contains(filepath.Base(pos.Filename), "zz_") {
+			continue
+		}
+		for _, b := range fn.Blocks {
+			for _, in := range b.Instrs {
+				var cc *ssa.CallCommon
+				switch x := in.(type) {
+				case *ssa.Call:
+					cc = &x.Call
+				case *ssa.Go:
+					cc = &x.Call
+				case *ssa.Defer:
+					cc = &x.Call
+				}
+				if cc == nil {
+					continue
+				}
+				callee := cc.StaticCallee()
+				if callee == nil || callee.Pkg == nil || callee.Pkg.Pkg == nil {
+					continue
+				}
+				if forbiddenPkg(callee.Pkg.Pkg.Path()) == "" || callee.Name() == "init" {
+					continue
+				}
+				if externals[callee.String()] != nil {
+					continue // has a model (os.Getenv)
+				}
+				out = append(out, callee.String()+" called from "+fn.String()+" at "+ld.Prog.Fset.Position(in.Pos()).String())
+			}
+		}
+	}
+	sort.Strings(out)
+	return out
 }
 
 // newInterpreter creates a worker's interpreter and runs the standard
